@@ -329,12 +329,24 @@ impl MDom {
     pub fn attr_value(&self, a: usize) -> String {
         let mut s = String::new();
         for c in &self.nodes[a].children {
-            s.push_str(&self.nodes[*c].value);
+            if self.nodes[*c].kind == Kind::EntityRef {
+                // the value of an attribute is the expansion of its children
+                s.push_str(match self.nodes[*c].name.as_str() {
+                    "amp" => "&",
+                    "lt" => "<",
+                    "gt" => ">",
+                    "apos" => "'",
+                    "quot" => "\"",
+                    _ => "",
+                });
+            } else {
+                s.push_str(&self.nodes[*c].value);
+            }
         }
         s
     }
 
-    fn insert_conditions(&self, p: usize, new: usize, refc: Option<usize>) -> (Vec<Exc>, bool) {
+    fn insert_conditions(&self, p: usize, new: usize, refc: Option<usize>, leaving: Option<usize>) -> (Vec<Exc>, bool) {
         let mut f = vec![];
         let mut silent = false;
         if !self.kind(p).can_have_children() {
@@ -344,6 +356,12 @@ impl MDom {
             }
         }
         if self.nodes[new].doc != self.nodes[p].doc {
+            f.push(Exc::WrongDocument);
+        }
+        // ownerDocument of a Document node is null, so "created from a different document" is a
+        // defensible reading when the Document node itself is passed as an argument: wrong-document
+        // is accepted next to the (always present) hierarchy / not-found condition
+        if self.kind(new) == Kind::Document || refc.map(|r| self.kind(r) == Kind::Document).unwrap_or(false) {
             f.push(Exc::WrongDocument);
         }
         if let Some(r) = refc {
@@ -368,14 +386,9 @@ impl MDom {
             if self.kind(p) == Kind::Document {
                 let ck = self.kind(new);
                 if matches!(ck, Kind::Element | Kind::DocType)
-                    && self.nodes[p].children.iter().any(|c| *c != new && self.kind(*c) == ck)
+                    && self.nodes[p].children.iter().any(|c| *c != new && Some(*c) != leaving && self.kind(*c) == ck)
                 {
                     f.push(Exc::Hierarchy);
-                }
-                // DOM Level 1 has no way to add a doctype at all
-                if ck == Kind::DocType && self.nodes[new].parent != Some(p) {
-                    f.push(Exc::Hierarchy);
-                    f.push(Exc::NoModification);
                 }
             }
         }
@@ -389,7 +402,7 @@ impl MDom {
             Op::Append(p, c) => self.insert(*p, *c, None),
             Op::InsertBefore(p, c, r) => self.insert(*p, *c, *r),
             Op::Replace(p, new, old) => {
-                let (mut f, _) = self.insert_conditions(*p, *new, Some(*old));
+                let (mut f, _) = self.insert_conditions(*p, *new, Some(*old), Some(*old));
                 if new == old {
                     // DOM Level 1 is silent: unchanged success or any failure
                     let mut e = Expect::ok1(self.clone(), Some(*old));
@@ -403,13 +416,19 @@ impl MDom {
                     f.dedup();
                     return Expect::fail(f);
                 }
+                let doc_own_child = self.kind(*p) == Kind::Document
+                    && ((self.kind(*new) == Kind::Element && self.nodes[*new].parent == Some(*p)) || self.kind(*new) == Kind::DocType);
                 let mut d = self.clone();
                 d.detach(*new);
                 let pos = d.nodes[*p].children.iter().position(|c| c == old).unwrap();
                 d.nodes[*p].children[pos] = *new;
                 d.nodes[*new].parent = Some(*p);
                 d.nodes[*old].parent = None;
-                Expect::ok1(d, Some(*old))
+                let mut e = Expect::ok1(d, Some(*old));
+                if doc_own_child {
+                    e.fail = vec![Exc::Hierarchy, Exc::NoModification];
+                }
+                e
             }
             Op::Remove(p, c) => {
                 let mut f = vec![];
@@ -420,6 +439,9 @@ impl MDom {
                 if self.nodes[*c].doc != self.nodes[*p].doc {
                     f.push(Exc::WrongDocument);
                     f.push(Exc::NotFound);
+                }
+                if self.kind(*c) == Kind::Document {
+                    f.push(Exc::WrongDocument);
                 }
                 if self.nodes[*c].parent != Some(*p) {
                     f.push(Exc::NotFound);
@@ -468,7 +490,8 @@ impl MDom {
             }
             Op::CreateEntityRef(name) => {
                 if !chars::is_name(name) {
-                    return Expect::fail(vec![Exc::InvalidCharacter]);
+                    // not a Name, and (in the BFS documents) not declared either: any error
+                    return Expect { ok: vec![], fail: vec![Exc::InvalidCharacter], any_error: true, text: None };
                 }
                 let mut d = self.clone();
                 let hnd = d.new_node(Kind::EntityRef, name, "");
@@ -610,7 +633,7 @@ impl MDom {
                     None => {
                         // parentless: the new node has nowhere to go; success or hierarchy request
                         let mut e = Expect::ok1(d, Some(n2));
-                        e.fail = vec![Exc::Hierarchy];
+                        e.fail = vec![Exc::Hierarchy, Exc::NoModification];
                         e.any_error = true;
                         e
                     }
@@ -748,7 +771,7 @@ impl MDom {
     }
 
     fn insert(&self, p: usize, new: usize, refc: Option<usize>) -> Expect {
-        let (f, silent) = self.insert_conditions(p, new, refc);
+        let (f, silent) = self.insert_conditions(p, new, refc, None);
         if silent {
             let mut e = Expect::ok1(self.clone(), Some(new));
             e.fail = f;
@@ -761,6 +784,13 @@ impl MDom {
         if !f.is_empty() {
             return Expect::fail(f);
         }
+        // re-inserting the document's own element / doctype into the document: DOM Level 1 says a
+        // node already in the tree is first removed (so the move is legal), but refusing it as a
+        // second element / doctype is a common reading too: both are accepted
+        // (DOM Level 1 has no way to add a doctype at all, so putting a removed doctype back may be
+        // refused as well)
+        let doc_own_child = self.kind(p) == Kind::Document
+            && ((self.kind(new) == Kind::Element && self.nodes[new].parent == Some(p)) || self.kind(new) == Kind::DocType);
         let mut d = self.clone();
         d.detach(new);
         match refc {
@@ -772,7 +802,11 @@ impl MDom {
         }
         d.nodes[new].parent = Some(p);
         d.refresh_attr_value(p);
-        Expect::ok1(d, Some(new))
+        let mut e = Expect::ok1(d, Some(new));
+        if doc_own_child {
+            e.fail = vec![Exc::Hierarchy, Exc::NoModification];
+        }
+        e
     }
 
     /// canonical dump of the structural state (handles as numbers); `extra` appends per-node text
